@@ -149,7 +149,7 @@ def check(spec):
         except Exception as e:
             raised = repr(e)
     overlap = expected_overlap(spec['structure'], spec['pattern'], spec['replace_all'])
-    if spec.get('f', 1.0) < 1.0:
+    if spec.get('f', 1.0) < 1.0 and not spec.get('all_selected_overlap'):
         # CNC has two occurrences: with f = 0.5 one of them is selected, with f = 0 none -- two SELECTED matches never overlap
         overlap = False
     must_raise = overlap and not spec['ignore'] and spec['pattern'] != 'empty'
@@ -163,7 +163,7 @@ def check(spec):
         # each structure atom removed at most once: atom count as computed from distinct removed atoms
         nmatch = {'CNC': 2, 'CNCNC': 4, 'separate': 2}[spec['structure'].replace('-N0', '')]
         if spec.get('f', 1.0) < 1.0:
-            nmatch = round(spec['f'] * nmatch)
+            nmatch = round(spec['f'] * nmatch)      # (documented: that share of the matches, rounded)
         shared = {} if spec['replace_all'] else {'keep-N': 1, 'keep-C': 1, 'keep-both': 2, 'none-shared': 0, 'empty': 0, 'moved-N': 0}[spec['pattern']]
         shared = 0 if spec['replace_all'] else shared
         removed_per = 2 - shared
@@ -205,6 +205,17 @@ def run(rec, tier, seed):
             for ig in (False, True):
                 for rng in (0, 1):
                     spec = dict(structure='CNC', pattern=pk, replace_all=False, ignore=ig, f=f, rng=rng)
+                    msg = check(spec)
+                    rec.case(repr(sorted(spec.items())))
+                    if msg:
+                        rec.fail('overlap', 'overlap', "%s on %r" % (msg, spec), spec, 'C07/overlap')
+    # a fraction below 1 that still selects overlapping matches whatever the draw: 0.9 of the two occurrences in CNC is both of them; 0.75 of
+    # the four in CNCNC is three, and any three contain two that remove the same N
+    for st, f in (('CNC', 0.9), ('CNCNC', 0.75), ('CNC-N0', 0.9)):
+        for pk in ('keep-C', 'none-shared', 'moved-N'):
+            for ig in (False, True):
+                for rng in (0, 1):
+                    spec = dict(structure=st, pattern=pk, replace_all=False, ignore=ig, f=f, rng=rng, all_selected_overlap=True)
                     msg = check(spec)
                     rec.case(repr(sorted(spec.items())))
                     if msg:
